@@ -4,11 +4,16 @@ meta.json (property, what it needs to manifest, what was run, result of the prop
 import json, os, re, subprocess, sys
 V = os.path.dirname(os.path.dirname(os.path.abspath(__file__)))
 rows = []
-for d in sorted(os.listdir(os.path.join(V, "seeded"))):
+from concurrent.futures import ThreadPoolExecutor
+dirs = [d for d in sorted(os.listdir(os.path.join(V, "seeded"))) if os.path.isdir(os.path.join(V, "seeded", d))]
+def verify(d):
+    return subprocess.run([os.path.join(V, "tools", "verify_seed.sh"), os.path.join(V, "seeded", d), d.split("-")[0]], capture_output=True, text=True).stdout.strip()
+with ThreadPoolExecutor(max_workers=int(os.environ.get("SEED_JOBS", "5"))) as ex:
+    outs = dict(zip(dirs, ex.map(verify, dirs)))
+for d in dirs:
     p = os.path.join(V, "seeded", d)
-    if not os.path.isdir(p): continue
     prop = d.split("-")[0]
-    out = subprocess.run([os.path.join(V, "tools", "verify_seed.sh"), p, prop], capture_output=True, text=True).stdout.strip()
+    out = outs[d]
     kv = dict(re.findall(r"(\w+)=(\S*)", out))
     agent = {}
     ap = os.path.join(p, "meta.agent.json")
